@@ -923,6 +923,13 @@ class RpcServer:
             # pointers): whatever it raises is reported as an error stream,
             # never allowed to escape and end the serve loop without a reply.
             try:
+                # A request that names a segment -- for the first time on this
+                # connection or a different one than before -- may itself be
+                # routed through that segment, so bring the connection cache up
+                # to date before the request batch is decoded against it.
+                if static_shm is None and shm_cache is not None:
+                    shm_cache.refresh(request_md, self._transport_kind)
+                    cached_shm = shm_cache.segment
                 method_name, kwargs = _decode_request(
                     request_batch,
                     request_md,
